@@ -197,6 +197,10 @@ partial def loop (h : IO.FS.Stream) (st : Stats) (cs : CaseSt) (caseNo : String)
 
 def main : IO Unit := do
   let st ← loop (← IO.getStdin) {} {} "?" 0
+  -- a run in which most cases were discarded as timing-unstable has not established the tie
+  let unstable := (st.branches.lookup "case.timing-unstable").getD 0
+  if st.cases > 10 && unstable * 3 > st.cases then
+    IO.println s!"TIE-NOT-ESTABLISHED {unstable} of {st.cases} cases were discarded as timing-unstable"
   st.print
 
 /-- stress summaries: every counter must be zero. -/
